@@ -19,6 +19,7 @@ type c14Stage struct {
 	Shape string `json:"shape"`
 	N     int    `json:"n"`
 	Slot  int    `json:"slot"`
+	Nest  int    `json:"nest"`
 }
 type c14Call struct {
 	C    string   `json:"c"`
@@ -150,7 +151,12 @@ func c14Source(st []c14Stage) string {
 			if (s.Shape == "slot" && k == s.Slot) || (s.Shape == "slot2" && (k == s.Slot || k == s.Slot%s.N+1)) {
 				args = append(args, "_")
 			} else {
-				args = append(args, fmt.Sprintf("%q", fmt.Sprintf("a%d", k)))
+				if k == s.Nest {
+					// an argument that is itself a (reflected) call
+					args = append(args, fmt.Sprintf("rec1(%q)", fmt.Sprintf("a%d", k)))
+				} else {
+					args = append(args, fmt.Sprintf("%q", fmt.Sprintf("a%d", k)))
+				}
 			}
 		}
 		if i > 0 {
